@@ -217,6 +217,7 @@ def build_group(group):
     return SegmentGroup(
         discriminator=group["d"],
         ahb_expression=group["expr"]["s"],
+        ahb_line_index=group.get("li"),
         segment_groups=[build_group(g) for g in group["groups"]],
         segments=[build_segment(s) for s in group["segs"]],
     )
@@ -225,7 +226,8 @@ def build_group(group):
 def build_segment(seg):
     from maus.models.edifact_components import Segment
 
-    return Segment(discriminator=seg["d"], ahb_expression=seg["expr"]["s"], data_elements=[build_element(e) for e in seg["des"]])
+    return Segment(discriminator=seg["d"], ahb_expression=seg["expr"]["s"], ahb_line_index=seg.get("li"),
+                   data_elements=[build_element(e) for e in seg["des"]])  # fmt: skip
 
 
 def build_element(element):
@@ -252,6 +254,19 @@ def anonymise(draw, tree):
                 node["disc"] = None
             elif choice == 1:
                 node["disc"] = "same"
+    return tree
+
+
+def line_indexes(draw, tree):
+    """
+    maus' optional ahb_line_index of groups and segments: absent, or numbers that need not increase along the document
+    (a group added by hand, lines merged from two sources); in place.  The order of the results is the document order.
+    """
+    for kind, node, _ in nodes(tree):
+        if kind in ("group", "seg"):
+            choice = draw(st.sampled_from([None, None, 0, 3, 7, 40, 41, 120]))
+            if choice is not None:
+                node["li"] = choice
     return tree
 
 
